@@ -2,6 +2,7 @@ mod apps;
 mod codec;
 mod decoder;
 mod diag;
+mod dp;
 mod gap;
 mod gsd;
 mod las;
@@ -31,6 +32,7 @@ fn engine(name: &str) -> Option<(fn(&mut Vec<String>, u64, bool), Box<dyn Execut
         "codec" => Some((codec::gen, Box::new(Stateless(codec::exec)))),
         "decoder" => Some((decoder::gen, Box::new(Stateless(decoder::exec)))),
         "diag" => Some((diag::gen, Box::new(diag::Exec::default()))),
+        "dp" => Some((dp::gen, Box::new(dp::Exec::new()))),
         "gap" => Some((gap::gen, Box::new(Stateless(gap::exec)))),
         "station" => Some((station::gen, Box::new(station::Exec::new()))),
         "prm" => Some((prm::gen, Box::new(prm::PrmExec::new()))),
